@@ -11,10 +11,14 @@
    merge function from the zero value if absent, delete = absent), then the row's markers.
    The theorems quantify over every state, every transaction (any number of ops per cell, any
    offsets, any blocks), every column parameterisation (merge function, zero, kind) - no bound.
+   A put stores [ccast col v]: the identity for every column but int / uint, which accept narrower
+   integers through SetAny / SetMany and widen them (Reader.Int sign-extends, Reader.Uint zero-
+   extends; Check.widen_signed / widen_unsigned, Widen.v): "exactly the value committed" is then
+   the same NUMBER at the column's width.  [c01_widening] shows what that is.
    Domain: enum columns are modelled without hash collisions (finding K3) and strings are below
    65536 bytes (finding K4); both are named in DESIGN.md. *)
 From stdpp Require Import gmap.
-From ColumnV Require Import GenShape Bytes Ops Buffer Store StoreProofs Link.
+From ColumnV Require Import GenShape Bytes Ops Buffer Store StoreProofs Link Check Widen.
 
 (* one transaction *)
 Theorem c01_commit_read : ∀ s t c col i,
@@ -42,10 +46,28 @@ Print Assumptions c01_invariant_preserved.
 
 (* non-vacuity: a concrete column and transaction exercising put, merge and delete on one cell *)
 Example c01_example :
-  let col := mkcol true (λ a b, match a, b with V8 x, V8 y => V8 (x + y) | _, _ => b end) (V8 0) ∅ in
+  let col := mkcol true (λ a b, match a, b with V8 x, V8 y => V8 (x + y) | _, _ => b end) (V8 0) id ∅ in
   let s := create_column coll0 1 col false in
   let t := push (push (push txn0 1 (mkop KPut 5 (V8 7))) 1 (mkop KMerge 5 (V8 3))) 1 (mkop KMerge 9 (V8 4)) in
   read (commit s t) 1 5 = Some (V8 10) ∧ read (commit s t) 1 9 = Some (V8 4) ∧ read (commit s t) 1 6 = None.
+Proof. vm_compute. done. Qed.
+
+(* narrow integers handed to an int / uint column: the stored value has the same signed (resp.
+   unsigned) reading as the entry, and storing a stored value again changes nothing *)
+Theorem c01_widening : ∀ v,
+  signed_view (widen_signed v) = signed_view v ∧ raw (widen_unsigned v) = raw v ∧
+  widen_signed (widen_signed v) = widen_signed v ∧ widen_unsigned (widen_unsigned v) = widen_unsigned v.
+Proof. intro v. split; [apply signed_view_widen|]. split; [apply raw_widen_unsigned|]. split; [apply widen_signed_idem|apply widen_unsigned_idem]. Qed.
+Print Assumptions c01_widening.
+
+Theorem c01_stored_values_are_fixed : ∀ s t, CastFixed s → CastFixed (commit s t).
+Proof. exact commit_cast_fixed. Qed.
+Print Assumptions c01_stored_values_are_fixed.
+
+Example c01_narrow_example :
+  let s := create_column coll0 1 (col_int merge_add) false in
+  let t := push (push txn0 1 (mkop KPut 5 (V2 65531))) 1 (mkop KMerge 5 (V8 1)) in
+  read (commit s t) 1 5 = Some (V8 18446744073709551612).
 Proof. vm_compute. done. Qed.
 
 (* the tie between the layers: the operations the L2 model takes for block b are what the L0
